@@ -7,7 +7,7 @@ pub fn def() -> PropDef {
     PropDef {
         id: "C15",
         builds: BOTH,
-        rule: "round trip: every paragraph of 1..=k words from {a,bb,ccc,e-acute,CJK,x-y,d.,a word wrapped in SGR sequences,a word containing a TAB} x widths 0..=12 x 64 ordered indent pairs over 8 prefix-character indents x algorithms x LF/CRLF x with/without trailing ending (ASCII separator, no hyphenation, break_words off); structural: every string over {SP,#,L,NL,CR,E2,HY,/} up to length N; non-trivial = a filled form with >= 2 lines (round trip) / an input with >= 2 non-empty lines (structural)",
+        rule: "round trip: every paragraph of 1..=k words from {a,bb,ccc,e-acute,CJK,x-y,d.,a word wrapped in SGR sequences,a word containing a TAB} x widths 0..=12 x 81 ordered indent pairs over 9 prefix-character indents (every documented prefix character occurs); a scan of every printable ASCII character as first character of a word / as indent x algorithms x LF/CRLF x with/without trailing ending (ASCII separator, no hyphenation, break_words off); structural: every string over {SP,#,L,NL,CR,E2,HY,/} up to length N; non-trivial = a filled form with >= 2 lines (round trip) / an input with >= 2 non-empty lines (structural)",
         assumptions: BASE_ASSUMPTIONS,
         floor: |t| t.pick(100_000, 300_000),
         run,
@@ -15,7 +15,7 @@ pub fn def() -> PropDef {
 }
 
 pub const VOCAB: &[&str] = &["a", "bb", "ccc", "\u{e9}", "\u{4f60}", "x-y", "d.", "\x1b[1mq\x1b[0m", "t\tu"];
-pub const INDENTS: &[&str] = &["", " ", "> ", "- ", "  ", "#", "//", "* "];
+pub const INDENTS: &[&str] = &["", " ", "> ", "- ", "  ", "#", "//", "* ", "+ "];
 
 pub fn algs() -> Vec<(&'static str, WrapAlgorithm)> {
     vec![
@@ -134,10 +134,44 @@ fn structural(r: &mut Run, n: usize) -> Result<(), MachineryError> {
     })
 }
 
+/// every printable ASCII character c: if c is a documented prefix character, "c " must be
+/// recovered as indent; otherwise a word beginning with c must survive the round trip
+fn punctuation_scan(r: &mut Run) -> Result<(), MachineryError> {
+    let pc: &[char] = &[' ', '-', '+', '*', '>', '#', '/'];
+    r.range("C15/ascii-prefix-character-scan", "for every c in 0x21..=0x7E: prefix characters as indents (\"c \", \"cc\"), all others as first character of the second word; widths 2..=8, both algorithms, LF/CRLF", 94, move |i, cx| {
+        let c = (0x21 + i) as u8 as char;
+        cx.seq = idx_seq(i);
+        for width in 2..=8usize {
+            for (an, alg) in algs() {
+                for le in [LineEnding::LF, LineEnding::CRLF] {
+                    cx.eval();
+                    let (text, ii, si): (String, String, String) = if pc.contains(&c) { ("ab cd ef".to_string(), format!("{c} "), format!("{c}{c}")) } else { (format!("ab {c}x cd {c}"), "> ".to_string(), "  ".to_string()) };
+                    cx.set_input(&text);
+                    let d = || format!("char={:?} width={} algorithm={} ending={:?} initial_indent={:?} subsequent_indent={:?}", c, width, an, le, ii, si);
+                    let res = cx.guard(|| {
+                        let o = Options::new(width).break_words(false).word_separator(WordSeparator::AsciiSpace).wrap_algorithm(alg).word_splitter(WordSplitter::NoHyphenation).line_ending(le).initial_indent(&ii).subsequent_indent(&si);
+                        let filled = fill(&text, &o);
+                        let nlines = filled.split(le.as_str()).count();
+                        let (t, uo) = unfill(&filled);
+                        (filled.clone(), nlines, t, uo.initial_indent.to_string(), uo.subsequent_indent.to_string())
+                    });
+                    if let Some((filled, nlines, t, uii, usi)) = res {
+                        let ok = t == text && uii == ii && (nlines < 2 || usi == si);
+                        if nlines >= 2 {
+                            cx.nontrivial();
+                        }
+                        cx.check("C15-roundtrip(prefix-character-scan)", ok, &d, &|| json!({"filled": filled, "unfilled_text": t, "initial_indent": uii, "subsequent_indent": usi}));
+                    }
+                }
+            }
+        }
+    })
+}
+
 fn run(r: &mut Run) -> Result<(), MachineryError> {
     let t = r.tier;
-    roundtrip(r, "C15/roundtrip(all-indent-pairs)", t.pick(3, 5), INDENTS)?;
+    roundtrip(r, "C15/roundtrip(all-indent-pairs)", t.pick(3, 4), INDENTS)?;
     roundtrip(r, "C15/roundtrip(longer)", t.pick(4, 6), &["", "> ", "  ", "//"])?;
     structural(r, t.pick(7, 9))?;
-    Ok(())
+    punctuation_scan(r)
 }
